@@ -15,6 +15,28 @@ def lib_suite(name):
     return {"basic": bls.G2Basic, "aug": bls.G2MessageAugmentation, "pop": bls.G2ProofOfPossession}[name]
 
 
+_derived = {}
+
+
+def derived_suite(suite, tag, pop_tag=b"APP-POP"):
+    """An application-specific ciphersuite: the stock class with its domain tags overridden, which is how this
+    API is given another tag.  None if the library refuses to be subclassed."""
+    key = (suite, tag, pop_tag)
+    if key not in _derived:
+        base = lib_suite(suite)
+        attrs = {"DST": tag}
+        if suite == "pop":
+            attrs["POP_TAG"] = pop_tag
+        try:
+            _derived[key] = type("App" + base.__name__, (base,), attrs)
+        except TypeError:
+            _derived[key] = None
+    return _derived[key]
+
+
+APP_TAGS = (b"APP-V01-CS01-with-BLS12381G2_XMD:SHA-256_SSWU_RO_", b"", b"x", b"BLS_SIG_BLS12381G2_XMD:SHA-256_SSWU_RO_NUL_X",
+            b"t" * 255)
+
 X = 0xD201000000010000                 # |x| of BLS12-381; r = x^4 - x^2 + 1
 LAMBDA = (X * X - 1) % R               # a cube root of unity modulo r (the GLV eigenvalue on G1)
 assert (LAMBDA * LAMBDA + LAMBDA + 1) % R == 0
